@@ -55,6 +55,8 @@ def jobs(prop, tier, seed):
 
     for name in sorted(STD):
         out.append(dict(harness="C03", variant="std", pid=f"std:{name}", std=name, opts={}, bounds={}, budget_s=30))
+    for pid in ("Node", "Tree", "Mutual"):
+        out.append(dict(harness="C03", variant="deep", pool="data", pid=pid, opts={}, bounds={}, budget_s=30))
     for cls in PRIMS:
         out.append(
             dict(harness="C03", variant="coerce", pid=f"coerce({cls})", cls=cls, opts={},
@@ -225,6 +227,48 @@ class StdTotal:
         return None
 
 
+class Deep:
+    """deeply nested data for a recursive type (concrete: the nesting depth is the point)"""
+
+    def __init__(self, job):
+        from apischema import ValidationError, deserialization_method
+
+        self.job = job
+        self.prog = program_of(job)
+        self.method = deserialization_method(self.prog.tp)
+        self.VE = ValidationError
+        self.functions = method_classes(self_of(self.method))
+        self.expect_tags = ["ran"]
+        self.assumptions = ["concrete datum nested 3000 levels deep; leaves symbolic"]
+        self.relax = ()
+
+    def body(self, ctx: Ctx):
+        pid = self.job["pid"]
+        leaf = ctx.int("v")
+        d = None
+        for _ in range(3000):
+            if pid == "Node":
+                d = {"v": leaf, "next": d}
+            elif pid == "Tree":
+                d = {"v": leaf, "kids": [d] if d is not None else []}
+            else:
+                d = {"b": {"a": d, "n": leaf}}
+        ctx.witness = "3000 nested levels"
+        ctx.run_phase()
+        ctx.notes["tag:ran"] = True
+        try:
+            self.method(d)
+        except self.VE:
+            pass
+        except RecursionError:
+            return Failure("crash", "RecursionError", witness="3000 nested levels", extra={"exc": "RecursionError"})
+        except Exception as e:
+            return Failure("crash", type(e).__name__, witness="3000 nested levels", extra={"exc": type(e).__name__})
+        return None
+
+
 def make(job):
     v = job.get("variant")
+    if v == "deep":
+        return Deep(job)
     return CoerceUnit(job) if v == "coerce" else StdTotal(job) if v == "std" else E2E(job)
